@@ -1,5 +1,7 @@
 import RattrDriver.JsonUtil
 import RattrModel.Results
+import RattrModel.Spec.Unroll
+import RattrDriver.C04
 
 namespace Rattr.Driver.C03
 open Lean Rattr Rattr.Driver Rattr.Results
@@ -61,5 +63,42 @@ def handle (payload : Json) : R Json := do
         ("results", jList (rs.map (fun (k, ir) => irJson k ir))),
         ("store", jList ((List.range n).map (fun k => irJson k (σ' k))))]]
   return Json.mkObj [("outcome", "ok"), ("rounds", jList outs)]
+
+/-! op `c03_spec` (round 3): the Lean SPEC of C03 on a snapshot — `Spec.derive` to a given depth and
+`Spec.unrollRoot` (one unrolling of every cycle) for every function — so that the harness can hold its
+own closure oracle (`resultslib.Closure.derive`, `resultslib.unroll_once`) against the definitions the
+theorems are about. -/
+
+def sigStr (s : Spec.Sig String) : Spec.Sig Str :=
+  let ps (l : List (Spec.Param String)) : List (Spec.Param Str) := l.map fun p => ⟨str p.name, p.hasDefault⟩
+  { posonly := ps s.posonly, args := ps s.args, vararg := s.vararg.map str, kwonly := ps s.kwonly,
+    kwarg := s.kwarg.map str }
+
+def accJson (k : Key) (a : Spec.Acc) : Json :=
+  Json.mkObj [("key", Json.num k), ("gets", jStrList (a.gets.map (·.toS))), ("sets", jStrList (a.sets.map (·.toS))),
+              ("dels", jStrList (a.dels.map (·.toS)))]
+
+def handleSpec (payload : Json) : R Json := do
+  let fnsJ ← asArr (← field payload "fns")
+  let mut fns : List FnInfo := []
+  let mut store0 : List IrSets := []
+  for f in fnsJ do
+    let iface := ifaceStr (← parseIface (← field f "iface"))
+    let calls ← (← asArr (← field f "calls")).mapM parseCall
+    fns := fns ++ [{ iface := iface, calls := calls }]
+    store0 := store0 ++ [⟨← parseNames (← field f "gets"), ← parseNames (← field f "sets"),
+                          ← parseNames (← field f "dels")⟩]
+  let resTab ← (← asArr (← field payload "resolve")).mapM fun p => do
+    match (← asArr p) with
+    | [c, k] => return ((← asNat c), (match k with | .null => none | _ => k.getNat?.toOption))
+    | _ => throw "bad resolve entry"
+  let sigs ← (← asArr (← field payload "sigs")).mapM fun j => do return sigStr (← C04.parseSig j)
+  let depth ← asNat (← field payload "depth")
+  let P : Prog := { fns := fns, resolve := fun c => (resTab.lookup c).join }
+  let S : Spec.SProg := { prog := P, sigs := sigs, own := fun k => (store0[k]?).getD IrSets.empty }
+  let keys := List.range fns.length
+  return Json.mkObj [
+    ("derive", jList (keys.map fun k => accJson k (Spec.derive S depth k))),
+    ("unroll", jList (keys.map fun k => accJson k (Spec.unrollRoot S k)))]
 
 end Rattr.Driver.C03
